@@ -19,31 +19,43 @@ pub fn universe(n: usize) -> Vec<MSym> {
     gen::symbols_3d_crystallographic(n)
 }
 
-/// A few larger domain symbols (5-6 chambers), sampled.
+/// Larger domain symbols (5-6 chambers): all branchings over {1,2,3,4,6} for sets with few
+/// 2-orbits, random ones otherwise, filtered by local sphericity, then thinned to `max_total`
+/// with a seed-dependent stride.
 pub fn sampled_larger(seed: u64, sizes: &[usize], per_set: usize, max_total: usize) -> Vec<MSym> {
-    let mut out = vec![];
+    let mut all = vec![];
     let mut rng = Rng::stream(seed, 0x3d);
     for &n in sizes {
         for s in gen::connected_sets_exact(3, n) {
             let orbits = gen::adjacent_orbits(&s);
-            for _ in 0..per_set {
-                let mut x = s.clone();
-                for (i, _, members, _) in &orbits {
-                    let v = *rng.pick(&[1usize, 1, 1, 2, 2, 3, 4, 6]);
-                    for &e in members {
-                        x.v[*i][e] = v;
+            if orbits.len() <= if per_set >= 3 { 7 } else { 5 } {
+                gen::for_all_branchings(&s, &|_, _| vec![1, 2, 3, 4, 6], &mut |x| {
+                    if gen::locally_spherical_3d(x) {
+                        all.push(x.clone());
                     }
-                }
-                if gen::locally_spherical_3d(&x) {
-                    out.push(x);
-                    if out.len() >= max_total {
-                        return out;
+                });
+            } else {
+                for _ in 0..(per_set * 400) {
+                    let mut x = s.clone();
+                    for (i, _, members, _) in &orbits {
+                        let v = *rng.pick(&[1usize, 1, 1, 2, 2, 3, 4, 6]);
+                        for &e in members {
+                            x.v[*i][e] = v;
+                        }
+                    }
+                    if gen::locally_spherical_3d(&x) {
+                        all.push(x);
                     }
                 }
             }
         }
     }
-    out
+    if all.len() <= max_total {
+        return all;
+    }
+    rng.shuffle(&mut all);
+    all.truncate(max_total);
+    all
 }
 
 /// First homology (abelian invariants of the textbook presentation), as strings "0","0","2",...
